@@ -136,7 +136,7 @@ EXTRA = {
     "C13": " Every fifth instance uses fictitious sampling masses given to the driver through update_masses (per atom or per coordinate). A step after the calculator was swapped without moving an atom. Per-coordinate mass-scaling powers. The adaptive driver: gamma and displacement of a step belong to that step's delta.",
     "C14": " The reversibility / order layer includes a rotating rigid bond (FixBondLength). A trajectory started after the atoms were moved by hand since the last evaluation. FixRot on clusters of unequal masses. Hookean restraints in the order layer; the proposal after refused trajectories is the trajectory from the start configuration with momenta drawn in this trial, whose kinetic energy is the remembered one.",
     "C15": " Plans may contain a rebuild (to_dict -> from_dict between two calls) and drivers without a log file; a counter of requested steps makes 'exactly the requested number' an invariant; liveness (every plan completes) is checked under weak fairness in the thorough tier. A per-case watchdog turns a call that does not return into a violation; the default restart observer is attached next to logger and trajectory (one rewrite per scheduled call). irun generators created before they are iterated. DriverInd.tla: the same claims for unbounded call lengths / calls / rebuilds / intervals by an inductive invariant discharged with Apalache, tied to Driver.tla by a refinement check in TLC. One-shot (negative interval) default logger.",
-    "C16": " Files.tla also has a failing logger call (nothing written) and pre-existing file content in 'a' mode, both bound by recorded histories; LoggerFields.tla (field management: insertion order, replace in place, remove by pattern, the shipped stress columns under every mask) and Observers.tla (file ownership) are replayed on the real classes. User checkpoints through the restart observer after the moves of a step. A draining run (empty-box frames), resume from the step-0 restart file into a new log, observer calls that write nothing still count. HeaderFormat.tla (derivation of header cells from data-cell formats) is replayed on the real function, str.format and Logger.add_field. A Logger given another file writes there and only there; rebuilding onto the earlier run's restart path does not change the file before the first observer call.",
+    "C16": " Files.tla also has a failing logger call (nothing written) and pre-existing file content in 'a' mode, both bound by recorded histories; LoggerFields.tla (field management: insertion order, replace in place, remove by pattern, the shipped stress columns under every mask, the convenience sets add_mc/md/opt_fields with their shared names) and Observers.tla (file ownership) are replayed on the real classes. User checkpoints through the restart observer after the moves of a step. A draining run (empty-box frames), resume from the step-0 restart file into a new log, observer calls that write nothing still count. HeaderFormat.tla (derivation of header cells from data-cell formats) is replayed on the real function, str.format and Logger.add_field. A Logger given another file writes there and only there; rebuilding onto the earlier run's restart path does not change the file before the first observer call.",
     "C18": " The curve is also replayed with reference variances 1 and 2 (coefficients above 1, committees of c^2+1 members). Alternating histories (committee data appear, disappear, re-appear between updates). Committee members that disagree in sign, identical members and realistic energy offsets. Delta read after step() on atoms of different masses.",
     "C19": " The caller's default array is handed over as is after an earlier search; delete + re-insert is also exercised the way the library composes it (a rejected grand-canonical trial that deletes one particle and inserts another, both orders). Negative indices. One global cutoff distance (float, int) over periodic boxes.",
     "C20": " The cell-changing ensembles also hold a user-defined constant-volume cell move W; the strict user objects are falsy and log truth-value tests. A delete-and-insert trial (zero particle balance) must be announced; the same object is serialized twice at the end (every user component is asked each time). What a move is told by a notification stays its own; an entry replaced after its announcement is the one executed and judged.",
